@@ -153,3 +153,12 @@ check(
     "fault injection: exhaustive crash-point enumeration per generated operation (audit-hook kill switch), old-or-new oracle",
     "DESIGN.md section 3 C04",
 )
+
+check(
+    "C05",
+    "exploration",
+    "Operation pairs/triples from 14 templates on tree-git and bare-git stores in two sharing modes run under a cooperative scheduler owned by the harness (schedule points: every source line of xandikos/store and every audited file-system call inside the store, i.e. also inside dulwich). All one-pre-emption schedules are enumerated (every third point in quick; every point, plus two pre-emptions over file-system points and three-operation templates in thorough) and Hypothesis draws random schedules with unbounded pre-emptions; outcomes and final contents must equal some sequential execution.",
+    "Trusted: the sequential reference model in xv/checks/c05.py. Pre-emption granularity is source line / file-system call, not bytecode; real multi-core timing is replaced by a sequentialised schedule. Known finding K6 (checks taken from a snapshot outside the critical section) is recognised by re-running the reference with exactly that relaxation, separately per back end.",
+    "systematic schedule exploration (bounded pre-emption enumeration + random schedules) with a serialisability oracle",
+    "DESIGN.md section 3 C05",
+)
